@@ -132,16 +132,25 @@ def valid_type_src(src):
         return False
 
 
-def type_strategy(max_depth=3):
+def type_strategy(max_depth=3, star=True):
     from hypothesis import strategies as st
 
     leaves = st.sampled_from(types_depth1())
+    binary = [b for b in BINARY if star or "*" not in b]
+    ternary = [t for t in TERNARY if star or "*" not in t]
+
+    def fmt(tpl, *args):
+        out = tpl.format(*args)
+        if " | " in tpl and not valid_type_src(out):
+            # `None | None` and friends are runtime errors; spell the same type with Union
+            out = "Union[" + ", ".join(args) + "]" if len(args) > 1 else f"Optional[{args[0]}]"
+        return out
 
     def extend(children):
         return st.one_of(
-            st.builds(lambda u, a: u.format(a), st.sampled_from(UNARY), children),
-            st.builds(lambda b, a, c: b.format(a, c), st.sampled_from(BINARY), children, children),
-            st.builds(lambda t, a, b, c: t.format(a, b, c), st.sampled_from(TERNARY), children, children, children),
+            st.builds(lambda u, a: fmt(u, a), st.sampled_from(UNARY), children),
+            st.builds(lambda b, a, c: fmt(b, a, c), st.sampled_from(binary), children, children),
+            st.builds(lambda t, a, b, c: fmt(t, a, b, c), st.sampled_from(ternary), children, children, children),
         )
 
     s = leaves
